@@ -713,7 +713,18 @@ func (e *Env) RResolvePath() {
 	// exactly when the position is not a declaring one (or resolution is forced), the resolver
 	// did not fail, and the answer is not the (vendor-stripped) local path unless local paths are
 	// wanted. Errors are returned exactly when the resolver fails.
-	const ask = `f.Resolver.ResolveIdent(f.file, parent, parentField, id)`
+	// the file argument is whatever resolvePath passes (its provenance is RResolverFile's business);
+	// parent, field name and identifier are fixed
+	fileArg := "f.file"
+	ast.Inspect(fd.Body, func(n ast.Node) bool {
+		if cl, ok := n.(*ast.CallExpr); ok && len(cl.Args) == 4 {
+			if fn := c.Callee(cl); fn != nil && fn.Name() == "ResolveIdent" {
+				fileArg = c.ExprStr(cl.Args[0])
+			}
+		}
+		return true
+	})
+	ask := `f.Resolver.ResolveIdent(` + fileArg + `, parent, parentField, id)`
 	const pre = `f.Resolver != nil && (force || avoid[parentName+"."+parentField] || parentFieldType == "Expr")`
 	e.checkReturns("R-RESOLVE", c, fd, "resolvePath", []wantReturn{{
 		what:   "the vendor-stripped resolver answer, unless a declaring position (not forced), a resolver error, or the local path",
